@@ -116,7 +116,7 @@ PLANS["C01"] = dict(
         gen=dict(module="MC_Notation_C07", cfg=lambda tier, seed: mc_cfg(["Inv_C07", "Inv_Emit"], consts=['Keys = {"EC-256", "EC-384", "RSA-2048"}']),
                  select=lambda cases, tier, seed: [c for c in cases if c["in"]["api"] == "blob"]),
         drive=dict(driver="roundtrip"),
-        validate=dict(module="Trace_NotationRT", cfg=trace_cfg(), only_rules=["broken-reader", "no-panic"]),
+        validate=dict(module="Trace_NotationRT", cfg=trace_cfg(), only_rules=["broken-reader", "wrong-blob", "wrong-media-type", "no-panic"]),
     )],
 )
 
